@@ -30,6 +30,7 @@ from twisted.python.runtime import platformType
 from twisted.python.url import URL
 from twisted.python.util import InsensitiveDict
 from twisted.web import http, resource, server
+from twisted.web._abnf import _decint
 from twisted.web.util import redirectTo
 
 dangerousPathError = resource._UnsafeNoResource("Invalid request URL.")
@@ -374,14 +375,14 @@ class File(resource.Resource, filepath.FilePath[str]):
                 raise ValueError(f"Invalid Byte-Range: {byteRange!r}")
             if start:
                 try:
-                    start = int(start)
+                    start = _decint(start)
                 except ValueError:
                     raise ValueError(f"Invalid Byte-Range: {byteRange!r}")
             else:
                 start = None
             if end:
                 try:
-                    end = int(end)
+                    end = _decint(end)
                 except ValueError:
                     raise ValueError(f"Invalid Byte-Range: {byteRange!r}")
             else:
@@ -395,6 +396,8 @@ class File(resource.Resource, filepath.FilePath[str]):
                 # both is invalid.
                 raise ValueError(f"Invalid Byte-Range: {byteRange!r}")
             parsedRanges.append((start, end))
+        if not parsedRanges:
+            raise ValueError("Empty Byte-Range set")
         return parsedRanges
 
     def _rangeToOffsetAndSize(self, start, end):
